@@ -11,7 +11,7 @@ from .. import evalenv, evaluation as E, extract, parsing as P, trees as T
 from ..common import Ctx
 from . import _evalcommon as EC
 
-MODULES = ["Ahbicht.Properties.C05"]
+MODULES = ["Ahbicht.Properties.C05", "Ahbicht.Properties.C05Brackets"]
 K1_KEY = "K1:brackets:bare-hint-and-bare-fc-in-one-O/X-run"
 K1_WITNESS = ("Muss [501] O [901] O [502] U [503]", "Muss [501] O [901] O ([502] U [503])")
 
